@@ -645,7 +645,11 @@ def _constrain_ages(
         p, c = edges_parent[e], edges_child[e]
         # TODO: even if nodes_fixed[p], this will still change the age
         if nodes_time[c] + epsilon >= nodes_time[p]:
-            nodes_time[p] = nodes_time[c] + epsilon
+            # at large times `c + epsilon` can round back to `c`: the parent must
+            # still end up strictly older than the child
+            nodes_time[p] = max(
+                nodes_time[c] + epsilon, np.nextafter(nodes_time[c], np.inf)
+            )
 
     return nodes_time
 
